@@ -770,7 +770,7 @@ def modifies_points(ex, clauses, view, st):
                 pts.append((key, rv(v.t)))
         elif m.startswith('*.'):
             pts.append(('f:' + m[2:], None))
-        elif m.startswith('$'):
+        elif m.startswith('$') or m.startswith('own:'):
             pts.append((m, None))
         else:
             base, _, fld = m.rpartition('.')
